@@ -75,6 +75,15 @@ Example C10_partial_nonvacuous_two_names :
 Proof. exact guarded_prog2_ok. Qed.
 Print Assumptions C10_partial_nonvacuous_two_names.
 
+(* the while / for sites never matter in the fragment: the construct these handlers build (see walk_stmt: body walked from
+   [c], resp. from [c] + the loop variable) always satisfies the loop clause of the guard, because every name a block newly
+   declares is met as a declaration node by _collect_order - so the defect is confined to if/elif/else and try/except *)
+Theorem C10_loop_constructs_always_guarded : forall P body c,
+  guard (CLoop (flat_map decl_names (w_nodes (walk_block P body c)))
+               (new_decls c (w_ctx (walk_block P body c)))) = true.
+Proof. exact loop_guard_holds. Qed.
+Print Assumptions C10_loop_constructs_always_guarded.
+
 (* being inside the guard is a property of the program, not of the iteration orders *)
 Theorem C10_guard_is_oracle_independent : forall s1 s2 p,
   perm_family s1 -> perm_family s2 -> o_ok (transl s1 p) = o_ok (transl s2 p).
